@@ -10,8 +10,8 @@ Local Open Scope N_scope.
 
 Definition D : descr := G.teosd_descr.          (* struct Config, Config::default(), struct Opt, patch_with_options *)
 Definition V : vdescr := G.teosd_vdescr.        (* get_auth_method, verify *)
-Definition Dc : docs := teosd_docs G.template_entries.   (* conf_template.toml + bitcoind's names and ports *)
-Definition Dcli : descr := G.cli_descr.         (* teos-cli: cli_config.rs *)
+Definition Dc : docs := teosd_docs G.conf_template_entries.   (* conf_template.toml + bitcoind's names and ports *)
+Definition Dcli : descr := G.teoscli_descr.         (* teos-cli: cli_config.rs *)
 
 (* ---------- the premises, evaluated on the generated descriptors ---------- *)
 Definition teosd_shape : vshape := Eval vm_compute in
